@@ -49,6 +49,29 @@ def ob_closures(env):
     env.witness("evaluated")
 
 
+def ob_closure_arguments(env):
+    """every closure evaluates the interpolant at the point it was called with (the clip to the grid box is the identity inside the
+    box, and uses the R extent for R and the Z extent for Z); outside the box f_R/f_Z use the nearest point of the box"""
+    tab = PsiTable(env)
+    Rlo, Rhi = env.real("grid_Rmin", lo=0.1, hi=50), env.real("grid_Rmax", lo=0.1, hi=50)
+    Zlo, Zhi = env.real("grid_Zmin", lo=-50, hi=50), env.real("grid_Zmax", lo=-50, hi=50)
+    env.assume((Rlo < Rhi) & (Zlo < Zhi) if env.mode == "sym" else (Rlo < Rhi and Zlo < Zhi), "grid extent")
+    R, Z = env.real("R", lo=0.1, hi=50), env.real("Z", lo=-50, hi=50)
+    inside = (R >= Rlo) & (R <= Rhi) & (Z >= Zlo) & (Z <= Zhi) if env.mode == "sym" else (Rlo <= R <= Rhi and Zlo <= Z <= Zhi)
+    env.assume(inside, "evaluation point inside the grid box")
+    env.assume(tab.pR * tab.pR + tab.pZ * tab.pZ > 0, "grad psi != 0")
+    eq = make_equilibrium(env, tab, jets=False, box=(Rlo, Rhi, Zlo, Zhi))
+    with field_numpy(env, eq):
+        for name in ("psi", "f_R", "f_Z", "Bp_R", "Bp_Z", "d2psidR2", "d2psidZ2", "d2psidRdZ"):
+            del eq._psi_args[:]
+            getattr(eq, name)(R, Z)
+            env.claim(name + ":interpolant_called", len(eq._psi_args) >= 1)
+            for (a, b, dx, dy) in eq._psi_args:
+                env.claim_eq(name + ":interpolant_evaluated_at_R", a, R)
+                env.claim_eq(name + ":interpolant_evaluated_at_Z", b, Z)
+    env.witness("evaluated")
+
+
 def ob_helper_chain(env):
     tab = PsiTable(env)
     R, Z = env.real("R", lo=1, hi=999), env.real("Z", lo=-999, hi=999)
@@ -332,6 +355,9 @@ ENCH = ["hypnotoad.core.equilibrium:Equilibrium." + n for n in
 OBLIGATIONS.append(Ob("spline_closures", ob_closures, tier="quick", family="closures", encodes=["hypnotoad.core.equilibrium:Equilibrium.magneticFunctionsFromGrid"],
                       desc="psi, f_R, f_Z, Bp_R, Bp_Z, d2psi* closures are the claimed combinations of the interpolant's derivatives",
                       stubs=["RectBivariateSpline -> table of psi and its partials"], bounds="point inside the box"))
+OBLIGATIONS.append(Ob("spline_closure_arguments", ob_closure_arguments, tier="quick", family="closures", encodes=["hypnotoad.core.equilibrium:Equilibrium.magneticFunctionsFromGrid"],
+                      desc="inside the grid box every closure evaluates the interpolant at exactly the point it was given (real clip semantics, symbolic grid extent)",
+                      stubs=["RectBivariateSpline -> table of psi and its partials, arguments recorded", "numpy.clip -> scalar clip"], bounds="grid extent and point symbolic, point inside the box"))
 OBLIGATIONS.append(Ob("helper_chain_vs_AD", ob_helper_chain, tier="quick", family="helper chain", encodes=ENCH + ["hypnotoad.core.equilibrium:Equilibrium.magneticFunctionsFromGrid"],
                       desc="dBRdR..dB2dZ equal the AD derivatives of the real Bp_R, Bp_Z, Bzeta, B2; div B = 0; dB/dR = dB2/dR/(2B)",
                       stubs=["RectBivariateSpline -> jets", "fpol, fpolprime -> symbols (non-constant fpol)"], bounds="R>=1; all derivatives of psi free"))
